@@ -84,37 +84,46 @@ def advLoop : Nat → Nat → St → St
     else if wDue s target then advLoop fuel target (settle (fireWrite s))
     else { s with now := max s.now target }
 
-def readNewConsumer (s : St) (c : Nat) : St :=
-  let s1 := { s with rCons := c :: s.rCons, rTimer := none, rHeld := false }
-  if s.rVoted then
-    if rescindTold s1 READ then rescindAs s1 READ else { rescindAs s1 READ with rVoted := false }
-  else s1
+def rAdd (s : St) (c : Nat) : St := { s with rCons := c :: s.rCons, rTimer := none, rHeld := false }
+def wAdd (s : St) (c : Nat) : St := { s with wCons := c :: s.wCons, wTimer := none }
 
+/-- `ReadTaskEvent::NewConsumer`: `task_state.set(None); if voted { rescind() … voted = false }` -/
+def readNewConsumer (s : St) (c : Nat) : St :=
+  if s.rVoted then
+    if rescindTold (rAdd s c) READ then rescindAs (rAdd s c) READ
+    else { rescindAs (rAdd s c) READ with rVoted := false }
+  else rAdd s c
+
+/-- the write task registers a consumer: `if voted { rescind() … voted = false }` -/
 def writeNewConsumer (s : St) (c : Nat) : St :=
-  let s1 := { s with wCons := c :: s.wCons, wTimer := none }
   if s.wVoted then
-    if rescindTold s1 WRITE then rescindAs s1 WRITE else { rescindAs s1 WRITE with wVoted := false }
-  else s1
+    if rescindTold (wAdd s c) WRITE then rescindAs (wAdd s c) WRITE
+    else { rescindAs (wAdd s c) WRITE with wVoted := false }
+  else wAdd s c
+
+def alive (s : St) : List Nat := s.rCons.filter (fun c => s.live.contains c)
 
 /-- an event from the remote lane -/
 def readEvent (s : St) : St :=
   if s.rHeld then { s with rHeld := false, rTimer := some (s.now + s.T) }   -- the join completes: `make_timeout()`
   else if s.rTimer.isSome || s.rVoted then s                       -- no consumers known: nothing to write
-  else
-    -- fed to every consumer, then flushed: the consumers that have gone are found out
-    let alive := s.rCons.filter (fun c => s.live.contains c)
-    if alive.isEmpty then { s with rCons := [], rHeld := true }
-    else { s with rCons := alive }
+  else if (alive s).isEmpty then { s with rCons := [], rHeld := true }
+  -- fed to every consumer, then flushed: the consumers that have gone are found out
+  else { s with rCons := alive s }
+
+def addLive (s : St) (c : Nat) : St := { s with live := c :: s.live, ever := c :: s.ever }
+def delLive (s : St) (c : Nat) : St :=
+  { s with live := s.live.filter (fun x => !(x == c)), wCons := s.wCons.filter (fun x => !(x == c)) }
+def wArm (s : St) : St := { s with wTimer := some (s.now + s.T) }
 
 def step0 (s : St) : Op → St × Bool
   | .attach c =>
     if s.ever.contains c then (s, false)
-    else (writeNewConsumer (readNewConsumer { s with live := c :: s.live, ever := c :: s.ever } c) c, true)
+    else (addLive (writeNewConsumer (readNewConsumer s c) c) c, true)
   | .dropc c =>
     if s.live.contains c then
-      let s1 := { s with live := s.live.filter (fun x => !(x == c)), wCons := s.wCons.filter (fun x => !(x == c)) }
       -- `SelectAll` yields `None` when its last stream ends: back to `Idle` with no consumers, a fresh timeout
-      (if s1.wCons.isEmpty then { s1 with wTimer := some (s.now + s.T) } else s1, true)
+      (if (delLive s c).wCons.isEmpty then wArm (delLive s c) else delLive s c, true)
     else (s, false)
   | .ev => (readEvent s, true)
   | .cmd c => (s, s.live.contains c)
